@@ -73,6 +73,14 @@ func (c *Conn) Read(b []byte) (int, error) {
 // connection latency and throttling read throughput based on desired bandwidth
 // constraints.
 func (c *Conn) ReadFrom(r io.Reader) (int64, error) {
+	// A response that is being shaped has to go through Write, which counts the
+	// body bytes and performs the throttles, halts and close actions of its
+	// shape. bufio.Writer hands everything after its first buffer to ReadFrom,
+	// which would otherwise copy the rest of the body past them.
+	if c.Context != nil && c.Context.Shaping {
+		return io.Copy(writerOnly{c}, r)
+	}
+
 	c.ronce.Do(c.sleepLatency)
 
 	var total int64
@@ -508,4 +516,10 @@ func (c *Conn) Write(b []byte) (int, error) {
 func (c *Conn) sleepLatency() {
 	log.Debugf("trafficshape: simulating latency: %s", c.latency)
 	time.Sleep(c.latency)
+}
+
+// writerOnly hides every method of a writer but Write, so that io.Copy does
+// not find ReadFrom again.
+type writerOnly struct {
+	io.Writer
 }
